@@ -449,4 +449,11 @@ def _obligations(tier, seed):
 
 def obligations(tier, seed):
     from . import conform
-    return _obligations(tier, seed) + conform.obligations(PROPERTY, tier)
+    from .c08 import ob_chained, CMPS
+    # "an output variable used in an antecedent sees exactly the contributions accumulated so far" under the activation methods that
+    # decide rule by rule: rules of one block reading terms that earlier rules of the same activation concluded (harness shared with C08)
+    chained = []
+    for method, cmp in [("General", None), ("First", None), ("Last", None)] + [("Threshold", c) for c in ((">", "<=") if tier == "quick" else CMPS)]:
+        nm = f"same-block-chain/{method}{cmp or ''}"
+        chained.append((nm, ob_chained(method, cmp, label=nm, prop=PROPERTY)))
+    return _obligations(tier, seed) + chained + conform.obligations(PROPERTY, tier)
